@@ -8,6 +8,7 @@ import (
 	"syscall"
 	"testing"
 
+	"verifharness/internal/dx"
 	"verifharness/internal/gen"
 	"verifharness/internal/hx"
 )
@@ -18,8 +19,11 @@ import (
 
 type noFaults struct{ n, pending int }
 
-func (f *noFaults) delivered() int { return f.n }
-func (f *noFaults) failNext(k int) { f.pending = k }
+func (f *noFaults) delivered() int               { return f.n }
+func (f *noFaults) failNext(k int)               { f.pending = k }
+func (f *noFaults) damage(id [32]byte, b []byte) {}
+func (f *noFaults) heal(id [32]byte, b []byte)   {}
+func (f *noFaults) refused() [][32]byte          { return nil }
 
 // goodReader: bytes.Reader with short reads and injected failures (error, position kept).
 type goodReader struct {
@@ -106,6 +110,67 @@ func (b *badReader) Read(p []byte) (int, error) {
 	return b.r.Read(p)
 }
 
+// refReader is a small correct chunk-wise reader over a store (one cached chunk, size check
+// against the index); with keepRefused it keeps a chunk it has just refused as its current
+// chunk - the defect the damage histories are there to find.
+type refReader struct {
+	l           *layout
+	s           *dx.MemStore
+	pos         int64
+	cur         int
+	data        []byte
+	keepRefused bool
+}
+
+func (r *refReader) Seek(off int64, wh int) (int64, error) {
+	switch wh {
+	case io.SeekCurrent:
+		off += r.pos
+	case io.SeekEnd:
+		off += r.l.length
+	}
+	if off < 0 || off > r.l.length {
+		return r.pos, errors.New("out of range")
+	}
+	r.pos = off
+	return off, nil
+}
+
+func (r *refReader) Read(p []byte) (n int, err error) {
+	if r.pos >= r.l.length {
+		return 0, io.EOF
+	}
+	for n < len(p) && r.pos < r.l.length {
+		c := r.l.chunkAt(r.pos)
+		if r.data == nil || r.cur != c {
+			r.data = nil
+			ch, err := r.s.GetChunk(r.l.ids[c])
+			if err != nil {
+				return n, err
+			}
+			b, err := ch.Data()
+			if err != nil {
+				return n, err
+			}
+			if uint64(len(b)) != r.l.spans[c].Len {
+				if r.keepRefused && len(b) > 0 {
+					r.cur, r.data = c, b
+				}
+				return n, errors.New("unexpected chunk size")
+			}
+			r.cur, r.data = c, b
+		}
+		o := int(r.pos - int64(r.l.spans[c].Start))
+		if o >= len(r.data) {
+			return n, errors.New("short chunk")
+		}
+		k := copy(p[n:], r.data[o:])
+		n += k
+		r.pos += int64(k)
+	}
+	return n, nil
+}
+
 func selfFail(t *testing.T, format string, a ...any) {
 	fmt.Println("SELFTEST-FAILURE: " + fmt.Sprintf(format, a...))
 	t.Fatalf(format, a...)
@@ -156,6 +221,62 @@ func TestSelf(t *testing.T) {
 		}
 		if !hit {
 			selfFail(t, "history checker misses seeded fault %q (want %s): %+v", mode, want, o.Violations)
+		}
+	}
+
+	// store damage of the wrong-length kind: silent on a reader that refuses every time, the clause
+	// named on one that keeps the refused chunk; an index entry with another size than its chunk
+	dmgOps := func(v int, kind string) []Op {
+		sp := l.spans[v]
+		return []Op{{Op: "seek", Off: int64(sp.Start), Abs: true}, {Op: "read", Len: 1}, {Op: "seek", Off: 0, Abs: true}, {Op: "read", Len: 1},
+			{Op: "damage", V: v, Kind: kind}, {Op: "seek", Off: int64(sp.Start), Abs: true}, {Op: "read", Len: 1}, {Op: "read", Len: 1},
+			{Op: "seek", Off: int64(sp.Start+sp.Len) - 1, Abs: true}, {Op: "read", Len: 4},
+			{Op: "heal", V: v}, {Op: "seek", Off: int64(sp.Start), Abs: true}, {Op: "read", Len: 5}}
+	}
+	for _, keep := range []bool{false, true} {
+		hits := 0
+		for _, kind := range []string{"short", "long", "one", "empty"} {
+			for _, v := range []int{3, 7, 9} {
+				var o hx.Outcome
+				store := dx.NewMemStore("self")
+				store.SkipVerify = true
+				fillStore(store, &l)
+				fl := newFailer(&o)
+				checkReadSeeker(fl, &refReader{l: &l, s: store, keepRefused: keep}, &l, dmgOps(v, kind), newMemFaults(store))
+				if !keep && (len(o.Violations) > 0 || !fl.cls["reread-after-refusal"] || !fl.cls["reread-after-heal"]) {
+					selfFail(t, "damage history (entry %d, %s) on a correct reader: violations %+v classes %v", v, kind, o.Violations, fl.cls)
+				}
+				for _, x := range o.Violations {
+					if x.Sig == "C09:readseeker:refused-chunk-served" {
+						hits++
+					}
+				}
+			}
+		}
+		if keep && hits < 6 {
+			selfFail(t, "a reader that keeps the refused chunk is named only %d times of 12", hits)
+		}
+	}
+	{
+		tc := base
+		tc.Twin = &Twin{At: 4, Of: 3, Size: 1}
+		tl := build(tc)
+		if !tl.bad[4] || tl.ids[4] != tl.ids[3] || tl.length != l.length+1 || tl.readable(0, tl.length) != int64(tl.spans[4].Start) {
+			selfFail(t, "twin layout wrong: %+v", tl.spans)
+		}
+		store := dx.NewMemStore("self")
+		store.SkipVerify = true
+		fillStore(store, &tl)
+		var o hx.Outcome
+		ops := []Op{{Op: "read", Len: int(tl.length)}, {Op: "read", Len: 1}, {Op: "seek", Off: int64(tl.spans[5].Start), Abs: true}, {Op: "read", Len: 3}}
+		checkReadSeeker(newFailer(&o), &refReader{l: &tl, s: store}, &tl, ops, newMemFaults(store))
+		if len(o.Violations) > 0 {
+			selfFail(t, "twin history on a refusing reader: %+v", o.Violations)
+		}
+		o = hx.Outcome{}
+		checkReadSeeker(newFailer(&o), bytes.NewReader(tl.blob), &tl, ops, &noFaults{})
+		if len(o.Violations) != 1 || o.Violations[0].Sig != "C09:readseeker:mis-sized-entry-accepted" {
+			selfFail(t, "twin history on a reader that serves the range: %+v", o.Violations)
 		}
 	}
 
